@@ -69,12 +69,18 @@ func NewCommentReader(r io.Reader, startMatches, endMatches [][]byte, isComments
 	return newCommentReader(r, startMatches, endMatches, isComments, requiredMatches, 0)
 }
 
+// the max size of a token, which is a string, a comment or the text before them.
+const maxTokenSize = int(^uint(0) >> 1)
+
 // @param escape the char which escapes the next char in tags which is not comment, 0 to disable it.
 func newCommentReader(r io.Reader, startMatches, endMatches [][]byte, isComments, requiredMatches []bool, escape byte) io.Reader {
 	v := &commentReader{
 		s: bufio.NewScanner(r),
 		b: &bytes.Buffer{},
 	}
+
+	// the default max token size of scanner is 64KB, which fails the bigger string, comment or text.
+	v.s.Buffer(nil, maxTokenSize)
 
 	v.s.Split(func(data []byte, atEOF bool) (advance int, token []byte, err error) {
 		if atEOF && len(data) == 0 {
